@@ -137,8 +137,11 @@ CHECKS = {
     'C10': dict(
         text='Proof over the generated decision bodies of _submit_buy/sell_orders and the generated Broker methods: order type is '
              'a function of p vs current price only (0.015% band -> MARKET, better -> LIMIT, worse -> STOP; exits LIMIT on the '
-             'profit side, STOP on the loss side, reduce-only, closing side), quantity and price exact, fall-through unreachable.',
-        technique='Lean 4 theorems over generated routing functions; translator cross-check on real Strategy/Broker objects; routing-table oracle',
+             'profit side, STOP on the loss side, reduce-only, closing side), quantity and price exact, fall-through unreachable. '
+             'Engine model (every strategy state): when a modified stop-loss / take-profit declaration is handled, every exit '
+             'order that was active and tagged with that kind before is no longer active afterwards '
+             '(resubmit_leaves_no_previous_exit). Reconciliation over whole runs: engine correspondence + oracles.',
+        technique='Lean 4 theorems over generated routing functions and the engine model; translator cross-check on real Strategy/Broker objects; routing-table and reconciliation oracles',
         ref='4 (C10)'),
     'C11': dict(
         text='Proof over a hand model of the process-wide state that outlives a research.backtest call (the config memo '
